@@ -397,7 +397,7 @@ class C10(Check):
         quick = tier == "quick"
         self.stats10 = dict(graphs=0, layer1_compared=0, layer1_unsupported=0, layer1_unavailable=0, layer1b_compared=0, layer1b_unsupported=0, byvalue_graphs=0, streams_equal=0, streams_differ=0,
                             loads=0, fresh_loads=0, deep_chains=0)
-        for gi in range(120 if quick else 1500):
+        for gi in range(100 if quick else 1500):
             if getattr(self, "timed_out", False):
                 break
             byvalue = gi % 4 == 3
